@@ -520,7 +520,7 @@ pub fn generate(rng: &mut Rng, n: usize, _tier: &str) -> Vec<Value> {
         v.push(json!({"big": true, "ops": big}));
     }
     // big histories: few, they cost a second each on the Coq side
-    let (nbig, cap) = if _tier == "thorough" { (n / 150 + 40, 1_300_000) } else { (n / 100 + 8, 700_000) };
+    let (nbig, cap) = if _tier == "thorough" { (n / 150 + 40, 1_300_000) } else { (12, 400_000) };
     let mut bigs = vec![];
     for i in 0..nbig {
         // the first ones always hold a chunk over 64 KiB
